@@ -267,6 +267,7 @@ class CallMixin:
     def cache_may_be_stale(self, name, getter, owner):
         from . import registry
         if name in registry.load().cache_ok:
+            self.exempt_cache_guard(name, getter)
             return False
         # instance state = names assigned through `self.<name> = ...` somewhere in the code; a getter that reads only class-level
         # constants and methods (also through self) is always consistent with its cache
@@ -302,6 +303,29 @@ class CallMixin:
                         if isinstance(n, ast.Constant) and n.value == name and not isinstance(fn_, ast.Constant):
                             raise Unsupported(f"cached_property {name}: the code refers to it by name ('{name}'), possibly to invalidate it")
         return True
+
+    def exempt_cache_guard(self, name, getter):
+        """A cached_property exempted in contracts/a_meta.py:ASSUMED_CONSISTENT_CACHES is taken as consistent because of an ANALYSIS of the
+        pinned code: nothing invalidates it, and the value it holds is produced nowhere else (so every reader sees the same - possibly
+        stale - value: the open finding).  This guard re-checks the two syntactic facts the analysis rests on, on the tree under
+        verification; when they no longer hold (a change invalidates the cache at one place, or computes the value afresh beside it),
+        the exemption is void and every function reading the cache is UNDECIDED - never green, never an alarm."""
+        cache = self.src.__dict__.setdefault('_exempt_cache_guard', {})
+        if name not in cache:
+            problems = []
+            producers = {n.func.id for n in ast.walk(getter) if isinstance(n, ast.Call) and isinstance(n.func, ast.Name)}
+            for path, tree in self.src.trees.items():
+                for n in ast.walk(tree):
+                    if isinstance(n, ast.Delete) and any(isinstance(t, ast.Attribute) and t.attr == name for t in n.targets):
+                        problems.append(f'{path}:{n.lineno} deletes .{name}')
+                    elif isinstance(n, ast.Constant) and n.value == name:
+                        problems.append(f"{path}:{n.lineno} refers to the cache by name ('{name}')")
+                    elif isinstance(n, ast.Call) and isinstance(n.func, ast.Name) and n.func.id in producers and \
+                            not (getter.lineno <= n.lineno <= (getter.end_lineno or getter.lineno)):
+                        problems.append(f'{path}:{n.lineno} computes the cached value afresh ({n.func.id}(...)) beside the cache')
+            cache[name] = problems
+        if cache[name]:
+            raise Unsupported(f'the analysis behind the exemption of cached_property {name} no longer matches the code: ' + '; '.join(cache[name][:3]))
 
     def cls_attr(self, cls, name, node=None, default=None):
         if name == '__name__':
@@ -716,12 +740,43 @@ class CallMixin:
         if c is not None and cc_.get('inline_all') and key not in cc_.get('keep_modular', []):
             c = None
         if c is not None and not c.get('inline') and not c.get('inline_in_callers') and key not in cc_.get('inline_callees', []):
-            return self.modular_call(key, c, f, allargs, kw, node)
+            und = self.undeclared_arguments(fn, c, allargs, kw, f)
+            if not und:
+                return self.modular_call(key, c, f, allargs, kw, node)
+            # the call passes an argument for a parameter the callee's contract does not describe (a parameter added by a change, or a
+            # call form the contract was not written for): the contract says nothing about this call - the callee's REAL body is used
+            self.st.notes.append(('outside-contract', key, tuple(und)))
+            import os as _os
+            if _os.environ.get('PYVC_TRACE_OUTSIDE'):
+                print(f'OUTSIDE-CONTRACT call of {key}: arguments {und} are not described by its contract; body inlined', flush=True)
         if len(self.st.frames) > 60:
             raise Unsupported(f'inlining depth exceeded at {key} (recursive function needs a contract)')
         env = dict(f.closure or {})
         env.update(self.bind(fn, allargs, kw, f))
         return self.inline(f, env, node)
+
+    def undeclared_arguments(self, fn, c, allargs, kw, f):
+        """names of parameters of the real signature that this call passes a value for and the contract `c` does not declare"""
+        if not isinstance(fn, (ast.FunctionDef, ast.AsyncFunctionDef)) or c.get('any_arguments'):
+            return []
+        declared = set(c.get('params', {})) | set(c.get('call_witness', {})) | {'self', 'cls'}
+        a = fn.args
+        pos = [x.arg for x in a.posonlyargs + a.args]
+        passed = pos[:len(allargs)] + [k for k in kw]
+        if len(allargs) > len(pos) and a.vararg is not None:
+            passed.append(a.vararg.arg)
+        known = set(pos) | {x.arg for x in a.kwonlyargs}
+        out = []
+        for nm in passed:
+            if nm in declared:
+                continue
+            if nm not in known and a.kwarg is not None:
+                nm = a.kwarg.arg
+                if nm in declared:
+                    continue
+            if nm not in out:
+                out.append(nm)
+        return out
 
     def depth_of(self, key):
         return sum(1 for fr in self.st.frames if fr.fn_key == key)
